@@ -48,9 +48,10 @@ try:
     else:
         rc1, out1 = run([PY, demo], cwd="/var/tmp", env=env, timeout=180)
         res["demo_with_change"] = {"exit": rc1, "tail": out1[-400:]}
-        rct, outt = run([PY, "-m", "pytest", "-q", "-p", "no:cacheprovider", "-n", "6", "--timeout=900"], cwd=wt, env=env, timeout=1800)
+        rct, outt = run([PY, "-m", "pytest", "-q", "-rf", "-p", "no:cacheprovider", "-n", "6", "--timeout=900", "-o", "timeout=900"], cwd=wt, env=env, timeout=1800)
         last = [l for l in outt.strip().splitlines() if l.strip()][-1] if outt.strip() else ""
-        res["test_suite_with_change"] = {"exit": rct, "summary": last[-200:]}
+        failed = [l for l in outt.splitlines() if l.startswith("FAILED")][:10]
+        res["test_suite_with_change"] = {"exit": rct, "summary": last[-200:], "failed": failed}
     ok = res.get("applies") and rc0 == 0 and res["demo_with_change"]["exit"] != 0 and res["test_suite_with_change"]["exit"] == 0
     res["confirmed"] = bool(ok)
     res["base_commit"] = base
